@@ -1,24 +1,43 @@
-(* Goroutine census of runnables/httpcluster/runner.go (C18, cluster leg), layered on the protocol
-   model ClusterLTS.v without changing it.  No proofs here.
+(* Child-server liveness and goroutine census of runnables/httpcluster/runner.go (C16: "the servers
+   it runs"; C18, cluster leg), layered on the protocol model ClusterLTS.v without changing it.
+   No proofs here.
 
-   Goroutines the cluster code creates or runs on (runner.go):
-   * the goroutine that called Run() itself (counted while Run has not returned: [main_alive]);
-   * stopServers: one helper per stop entry with a runtime, `go func(id, entry){ entry.runner.Stop();
-     entry.cancel(); wg.Done() }`, all spawned before wg.Wait(): they are the [tocall] (spawned, Stop()
-     not yet called) and [called] (inside Stop()) components of the PStop program counter; a helper
-     ends with the return of its Stop() (label LStopRet);
-   * createAndStartServer: one goroutine per successfully created server instance,
-     `go func(){ runner.Run(serverCtx); log }`: nobody joins it; it ends when the server's Run returns.
-     ClusterLTS has no label for that return, so this file adds the ghost list [g_run] (instances whose
-     goroutine is alive: added by LFactory) and the label [GRunRet i] (the server's Run returned and the
-     goroutine ended; enabled once Run was called - a server may also fail on its own at any time).
-   Nothing else is started by the package (waitForIsRunning / the restart delay use timers).
+   ClusterLTS.v knows which instances were created and which had Stop() called / returned.  It does
+   not know whether a server RUNS: whether its Run was called, has returned, and whether the
+   context the cluster gave it is still live.  This file adds exactly that:
 
-   Environment contract of a server (supervisor.Runnable): Run returns once Stop() has returned or
-   the context it was given is cancelled.  An instance of [g_run] for which that holds is [obliged];
-   an instance whose goroutine has not even called Run yet ([s_unrun]) is runnable.  A state is
-   [settled] when no server goroutine is obliged or runnable: these are the states in which the
-   census is compared with the real goroutine dump, and in which the theorems bound it.
+   [g_run]   instances whose createAndStartServer goroutine is alive (added by LFactory; the
+             goroutine ends when the server's Run returns: labels GRunRet / GSelfExit);
+   [g_cx]    instances whose OWN context the cluster has cancelled.  The code does that in two
+             places: the stop helper, `entry.runner.Stop(); entry.cancel()` (fused with LStopRet
+             in a PStop state), and the failed-readiness cleanup, `serverCancel(); runner.Stop()`
+             (label GFailCancel, before the LStopCall of a PWait state).  The factory-error path
+             cancels a context no server ever saw;
+   [g_rc]    runCancel() was called: the StopCh branch of the main select (`runCancel(); return
+             r.shutdown(runCtx)`, label GShutStop - the other two branches are GB LShut).  Every
+             server context is a child of runCtx, itself a child of the context given to Run
+             ([s_cancel]).  (`defer runCancel()` at the return of Run cancels nothing that is not
+             already cancelled: every instance ever created is in [g_cx] by then.)
+   [g_self]  instances whose Run returned BY ITSELF: after having been ready, with no Stop() call and
+             a live context (label GSelfExit, an environment action).  runner.go only logs it
+             ("Server instance failed"): the entry stays in the collection, GetServerCount() keeps
+             counting it, and a later map with the same configuration does not restart it - the
+             base model is unchanged by the label, which is exactly that behaviour;
+   [g_ack]   the last offered map has been received and its sender has not yet reported it
+             (label GSent = the harness' PD token): a trace shows when a map has been taken.
+
+   Contract of a server (supervisor.Runnable + Stateable, as the bundled httpserver.Runner and the
+   harness mocks implement it):
+   * Run returns only after its Stop() was called or its context was cancelled ([GRunRet]) - or by
+     itself ([GSelfExit], only once it has been ready);
+   * IsRunning() is true only while Run has been called, has not returned and the context is live:
+     LReady (waitForIsRunning returned true) is guarded accordingly;
+   * a server that notices its context cancelled before any Stop() call reports it ([GCtxSeen],
+     the mock's CX token): possible only if the model says the context IS cancelled.
+
+   An instance of [g_run] is [obliged] to end when its Stop() has returned or its context is
+   cancelled in one of the three ways.  A state is [settled] when no server goroutine is obliged or
+   has yet to call Run: the states in which the census is compared with the real goroutine dump.
 
    [GCensus m h r] is the observation "at a quiescent point the goroutine dump showed m goroutines in
    Run, h stop helpers, r server goroutines": enabled only in a settled state with no helper still on
@@ -26,19 +45,52 @@
 From GS Require Export ClusterLTS.
 From GS Require Import LTS.
 
-Record gstate := mkG { g_s : state; g_run : list N }.
+Record gstate := mkG {
+  g_s : state;
+  g_run : list N;
+  g_cx : list N;
+  g_rc : bool;
+  g_self : list N;
+  g_ack : bool
+}.
 
 Inductive glabel :=
 | GB (l : label)
-| GRunRet (i : N)
+| GShutStop                  (* tau: the main select takes the StopCh branch: runCancel(), shutdown *)
+| GFailCancel (i : N)        (* tau: serverCancel() of a server that did not become ready *)
+| GCtxSeen (i : N)           (* server i saw its context cancelled, before any Stop() call *)
+| GRunRet (i : N)            (* server i's Run returned (Stop() called or context cancelled) *)
+| GSelfExit (i : N)          (* a ready server's Run returned by itself *)
+| GSent                      (* the sender of the last map learnt that it was received *)
 | GCensus (m h r : N).
 
 Inductive gevent :=
 | GE (e : event)
+| GECtxSeen (i : N)
 | GERunRet (i : N)
+| GESelfExit (i : N)
+| GESent
 | GECensus (m h r : N).
 
-Definition ginit (delay : bool) : gstate := mkG (init delay) [].
+Definition ginit (delay : bool) : gstate := mkG (init delay) [] [] false [] false.
+
+Definition addN (i : N) (l : list N) : list N := if memN i l then l else i :: l.
+
+(* ---- liveness of a server's context ---- *)
+Definition cxb (g : gstate) (i : N) : bool :=
+  memN i (g_cx g) || s_cancel (g_s g) || g_rc g.
+
+Definition lvb (s : state) (i : N) : bool := memN i (map fst (s_live s)).
+Definition spb (s : state) (i : N) : bool := memN i (map fst (s_stopping s)).
+
+(* instance i is the one startServers is waiting for *)
+Definition waitingb (s : state) (i : N) : bool :=
+  match s_pc s with PWait _ _ _ j _ => N.eqb i j | _ => false end.
+
+(* Run called, not returned by the cluster's doing, context live: the server RUNS (or ran until it
+   gave up by itself) *)
+Definition aliveb (g : gstate) (i : N) : bool :=
+  negb (cxb g i) && negb (memN i (s_unrun (g_s g))) && (memN i (g_run g) || memN i (g_self g)).
 
 (* ---- the census ---- *)
 Definition main_alive (s : state) : nat := match s_pc s with PRet => 0%nat | _ => 1%nat end.
@@ -53,16 +105,13 @@ Definition census (g : gstate) : nat :=
   (main_alive (g_s g) + helpers (g_s g) + length (g_run g))%nat.
 
 (* ---- obligations of the environment ---- *)
-Definition lvb (s : state) (i : N) : bool := memN i (map fst (s_live s)).
-Definition spb (s : state) (i : N) : bool := memN i (map fst (s_stopping s)).
-
-(* Stop() of instance i has returned (it is neither waiting for its Stop() nor inside it) or the
-   context given to Run() - the parent of every server context - is cancelled *)
-Definition obliged (s : state) (i : N) : bool :=
-  (negb (lvb s i) && negb (spb s i)) || s_cancel s.
+(* Stop() of instance i has returned, or its context is cancelled (its own, the context given to
+   Run, or runCtx through the Stop path's runCancel) *)
+Definition obliged (g : gstate) (i : N) : bool :=
+  (negb (lvb (g_s g) i) && negb (spb (g_s g) i)) || cxb g i.
 
 Definition settledb (g : gstate) : bool :=
-  forallb (fun i => negb (obliged (g_s g) i) && negb (memN i (s_unrun (g_s g)))) (g_run g).
+  forallb (fun i => negb (obliged g i) && negb (memN i (s_unrun (g_s g)))) (g_run g).
 
 (* server goroutines whose Stop() has returned: only the contract keeps them alive *)
 Definition zombies (g : gstate) : list N :=
@@ -71,18 +120,67 @@ Definition zombies (g : gstate) : list N :=
 Definition no_helper_starting (s : state) : bool :=
   match s_pc s with PStop _ _ (_ :: _) _ _ => false | _ => true end.
 
+(* ---- the wrapper's guards on base labels ---- *)
+Definition gguard (g : gstate) (l : label) : bool :=
+  let s := g_s g in
+  match l with
+  | LShut => s_cancel s || s_closed s            (* runCtx.Done / siphon closed; StopCh is GShutStop *)
+  | LStopCall i =>
+    match s_pc s with PWait _ _ _ _ _ => memN i (g_cx g) | _ => true end   (* serverCancel() came first *)
+  | LReady =>
+    match s_pc s with
+    | PWait _ _ _ i _ => negb (memN i (s_unrun s)) && memN i (g_run g) && negb (memN i (g_cx g))
+    | _ => true
+    end
+  | LOffer _ => negb (g_ack g)                   (* one sender: it offers again only after its report *)
+  | _ => true
+  end.
+
+Definition gafter (g : gstate) (l : label) (s' : state) : gstate :=
+  match l with
+  | LFactory _ _ i _ => mkG s' (i :: g_run g) (g_cx g) (g_rc g) (g_self g) (g_ack g)
+  | LStopRet i => mkG s' (g_run g) (addN i (g_cx g)) (g_rc g) (g_self g) (g_ack g)
+  | LRecv _ => mkG s' (g_run g) (g_cx g) (g_rc g) (g_self g) true
+  | _ => mkG s' (g_run g) (g_cx g) (g_rc g) (g_self g) (g_ack g)
+  end.
+
 Definition gstep (fx : bool) (g : gstate) (l : glabel) : option gstate :=
   match l with
   | GB bl =>
-    match step fx (g_s g) bl with
-    | Some s' =>
-      Some (mkG s' (match bl with LFactory _ _ i _ => i :: g_run g | _ => g_run g end))
-    | None => None
-    end
-  | GRunRet i =>
-    if memN i (g_run g) && negb (memN i (s_unrun (g_s g)))
-    then Some (mkG (g_s g) (removeN i (g_run g)))
+    if gguard g bl then
+      match step fx (g_s g) bl with
+      | Some s' => Some (gafter g bl s')
+      | None => None
+      end
     else None
+  | GShutStop =>
+    if s_stopreq (g_s g) then
+      match step fx (g_s g) LShut with
+      | Some s' => Some (mkG s' (g_run g) (g_cx g) true (g_self g) (g_ack g))
+      | None => None
+      end
+    else None
+  | GFailCancel i =>
+    match s_pc (g_s g) with
+    | PWait _ _ _ j b =>
+      if N.eqb i j && (negb (beh_eqb b BReady) || s_cancel (g_s g)) && negb (memN i (g_cx g))
+      then Some (mkG (g_s g) (g_run g) (i :: g_cx g) (g_rc g) (g_self g) (g_ack g))
+      else None
+    | _ => None
+    end
+  | GCtxSeen i =>
+    if memN i (g_run g) && negb (memN i (s_unrun (g_s g))) && cxb g i && lvb (g_s g) i
+    then Some g else None
+  | GRunRet i =>
+    if memN i (g_run g) && negb (memN i (s_unrun (g_s g))) && (negb (lvb (g_s g) i) || cxb g i)
+    then Some (mkG (g_s g) (removeN i (g_run g)) (g_cx g) (g_rc g) (g_self g) (g_ack g))
+    else None
+  | GSelfExit i =>
+    if memN i (g_run g) && negb (memN i (s_unrun (g_s g))) && lvb (g_s g) i && negb (waitingb (g_s g) i)
+    then Some (mkG (g_s g) (removeN i (g_run g)) (g_cx g) (g_rc g) (i :: g_self g) (g_ack g))
+    else None
+  | GSent =>
+    if g_ack g then Some (mkG (g_s g) (g_run g) (g_cx g) (g_rc g) (g_self g) false) else None
   | GCensus m h r =>
     if settledb g && no_helper_starting (g_s g)
        && N.eqb m (N.of_nat (main_alive (g_s g))) && N.eqb h (N.of_nat (helpers (g_s g)))
@@ -90,11 +188,12 @@ Definition gstep (fx : bool) (g : gstate) (l : glabel) : option gstate :=
     then Some g else None
   end.
 
-(* forgetting the census labels gives a schedule of the protocol model *)
+(* forgetting the liveness and census labels gives a schedule of the protocol model *)
 Fixpoint erase (ls : list glabel) : list label :=
   match ls with
   | [] => []
   | GB l :: t => l :: erase t
+  | GShutStop :: t => LShut :: erase t
   | _ :: t => erase t
   end.
 
@@ -102,28 +201,43 @@ Fixpoint erase (ls : list glabel) : list label :=
 Definition gobs (l : glabel) : option gevent :=
   match l with
   | GB bl => match obs bl with Some e => Some (GE e) | None => None end
+  | GShutStop | GFailCancel _ => None
+  | GCtxSeen i => Some (GECtxSeen i)
   | GRunRet i => Some (GERunRet i)
+  | GSelfExit i => Some (GESelfExit i)
+  | GSent => Some GESent
   | GCensus m h r => Some (GECensus m h r)
   end.
 
-Definition gtaus (g : gstate) : list glabel := map GB (taus (g_s g)).
+Definition gtaus (g : gstate) : list glabel :=
+  map GB (taus (g_s g)) ++
+  match s_pc (g_s g) with
+  | PIdle => [GShutStop]
+  | PWait _ _ _ i _ => [GFailCancel i]
+  | _ => []
+  end.
 
 Definition gvis (g : gstate) (e : gevent) : list glabel :=
   match e with
   | GE e' => map GB (vis (g_s g) e')
+  | GECtxSeen i => [GCtxSeen i]
   | GERunRet i => [GRunRet i]
+  | GESelfExit i => [GSelfExit i]
+  | GESent => [GSent]
   | GECensus m h r => [GCensus m h r]
   end.
 
 Definition gevent_eqb (a b : gevent) : bool :=
   match a, b with
   | GE x, GE y => event_eqb x y
-  | GERunRet i, GERunRet j => N.eqb i j
+  | GECtxSeen i, GECtxSeen j | GERunRet i, GERunRet j | GESelfExit i, GESelfExit j => N.eqb i j
+  | GESent, GESent => true
   | GECensus m h r, GECensus m' h' r' => N.eqb m m' && N.eqb h h' && N.eqb r r'
   | _, _ => false
   end.
 
-Definition gkey (g : gstate) : list N := key (g_s g) ++ k_ns (g_run g).
+Definition gkey (g : gstate) : list N :=
+  key (g_s g) ++ k_ns (g_run g) ++ k_ns (g_cx g) ++ k_ns (g_self g) ++ [k_bool (g_rc g); k_bool (g_ack g)].
 
 Definition gaccept (delay : bool) (fuel : nat) (t : list gevent) : list gstate * bool :=
   LTS.accept_from gstate glabel gevent (gstep repaired) gobs gtaus gvis gevent_eqb gkey fuel
@@ -133,9 +247,21 @@ Definition gaccepted_prefix (delay : bool) (fuel : nat) (t : list gevent) : nat 
                    [ginit delay] t.
 
 (* the property's executable predicates on a model state (used by the driver on every state the
-   acceptor returns): after a clean stop nothing is left; while running the census is within the bound *)
+   acceptor returns): after a clean stop nothing is left that is not owed; while running the census is
+   within the bound *)
 Definition started_not_stopped (s : state) : nat := (length (s_live s) + length (s_stopping s))%nat.
 Definition clean_okb (g : gstate) : bool :=
-  match s_pc (g_s g) with PRet => Nat.eqb (census g) 0 | _ => true end.
+  match s_pc (g_s g) with
+  | PRet => Nat.eqb (census g) (length (g_run g)) && forallb (obliged g) (g_run g)
+  | _ => true
+  end.
 Definition bound_okb (g : gstate) : bool :=
   Nat.leb (census g) (1 + 2 * started_not_stopped (g_s g) + length (zombies g)).
+
+(* C16: whenever the loop is idle and the context is not cancelled, every server started and not
+   stopped is alive (proved for every reachable state: ClusterLive.live_okb_reachable) *)
+Definition live_okb (g : gstate) : bool :=
+  match s_pc (g_s g) with
+  | PIdle => s_cancel (g_s g) || forallb (fun j => aliveb g j) (map fst (s_live (g_s g)))
+  | _ => true
+  end.
